@@ -1,7 +1,8 @@
 package main
 
 // Level C: the name -> map step. Every set of <=3 map declarations over
-// 8 owners x {M, 8}, every query name of a small universe, three stores.
+// 10 owners x {M, 8}, every query name of a universe of shallow and deep
+// names, three stores.
 
 import (
 	"fmt"
@@ -16,11 +17,55 @@ import (
 	"verifharness/vlib"
 )
 
-var mapOwners = []string{".", "*.", "com", "*.com", "example.com", "*.example.com", "a.example.com", "*.a.example.com"}
+// deepOwner is an 11-label owner: the map declarations at it and at its wildcard
+// put an exact and a wildcard key 8 labels below the other owners.
+var deepOwner = deepLabels(8) + ".a.example.com"
+
+var mapOwners = []string{".", "*.", "com", "*.com", "example.com", "*.example.com", "a.example.com", "*.a.example.com", deepOwner, "*." + deepOwner}
 var mapKinds = []string{"M", "8"}
 
-var queryNames = []string{".", "com", "org", "x.com", "example.com", "exampld.com", "a.example.com", "0.example.com", "b.example.com",
+var shallowNames = []string{".", "com", "org", "x.com", "example.com", "exampld.com", "a.example.com", "0.example.com", "b.example.com",
 	"a.a.example.com", "b.a.example.com", "c.b.a.example.com", "example.com.example.com"}
+
+// queryNames: the shallow universe plus deep names - every per-label loop of the
+// name -> map step has a bound somewhere (a primed slice capacity, a key buffer,
+// 127 labels, 255 bytes): a ladder of 9..14-label names below a.example.com (the
+// deep owner is one of its rungs: 11 labels), a sibling of the deep owner, a
+// 35-label nibble name, the longest possible names (123 one-byte labels = 255
+// bytes; four labels of 63+63+63+47 bytes = 255 bytes) and a 34-label ip6.arpa name.
+var queryNames, queryDisp = buildQueryNames()
+
+// deepLabels(n) = "n.….2.1" with one-character labels 1..9,a..z
+func deepLabels(n int) string {
+	const al = "123456789abcdefghijklmnopqrstuvwxyz"
+	var l []string
+	for i := n; i >= 1; i-- {
+		l = append(l, string(al[(i-1)%len(al)]))
+	}
+	return strings.Join(l, ".")
+}
+
+func buildQueryNames() (names, disp []string) {
+	add := func(n, d string) {
+		if w := wireName(n); len(w) > 255 {
+			panic("query name longer than 255 bytes: " + d)
+		}
+		names = append(names, n)
+		disp = append(disp, d)
+	}
+	for _, n := range shallowNames {
+		add(n, n)
+	}
+	for e := 6; e <= 11; e++ { // 9..14 labels
+		add(deepLabels(e)+".a.example.com", deepLabels(e)+".a.example.com")
+	}
+	add("x.7.6.5.4.3.2.1.a.example.com", "x.7.6.5.4.3.2.1.a.example.com") // sibling of the deep owner
+	add(deepLabels(32)+".a.example.com", "<32x1>.a.example.com")
+	add(deepLabels(120)+".a.example.com", "<120x1>.a.example.com")
+	add(strings.Repeat("x", 63)+"."+strings.Repeat("y", 63)+"."+strings.Repeat("z", 63)+"."+strings.Repeat("w", 47)+".a.example.com", "<63+63+63+47>.a.example.com")
+	add(strings.Join(strings.Split("10000000000000000000000000000000", ""), ".")+".ip6.arpa", "<32x1>.ip6.arpa")
+	return names, disp
+}
 
 type mdecl struct {
 	owner string
@@ -264,7 +309,7 @@ func runLevelC(r *vlib.Run, dir string) *levelC {
 	// owners the file that declares both kinds (M and 8) for each of them;
 	// thorough - every set of <=2 declarations plus, for every set of <=3 owners,
 	// the file declaring both kinds. (Files of the RocksDB list go to CDB too.)
-	c.fileRule = "CDB: all sets of <=3 of the 16 declarations, plus the RocksDB files. RocksDB v1/v2, quick: for every set of <=2 of the 8 owners the file declaring both map kinds for each owner (37 files); thorough: all sets of <=2 declarations, plus for every set of <=3 owners the file declaring both kinds"
+	c.fileRule = "owners: root, com, example.com, a.example.com and the 11-label " + deepOwner + ", each as exact and as wildcard owner. CDB: all sets of <=3 of the 20 declarations, plus the RocksDB files. RocksDB v1/v2, quick: for every set of <=2 of the 10 owners the file declaring both map kinds for each owner (56 files); thorough: all sets of <=2 declarations, plus for every set of <=3 owners the file declaring both kinds"
 	rdbOwners, rdbDecls := r.Pick(2, 3), r.Pick(-1, 2)
 	sel := map[uint32]bool{} // mask -> rdb
 	for m := uint32(0); m < 1<<uint(n); m++ {
@@ -374,7 +419,7 @@ func runLevelC(r *vlib.Run, dir string) *levelC {
 				}
 			}
 			text := c.fileText(ids)
-			fp := fmt.Sprintf("name-map/%s/%s/%s/%s/%s", storesC[f.store].name, mapKinds[f.kind], kindNamesC[f.dis], declsText(decls), qn)
+			fp := fmt.Sprintf("name-map/%s/%s/%s/%s/%s", storesC[f.store].name, mapKinds[f.kind], kindNamesC[f.dis], declsText(decls), queryDisp[f.qn])
 			violate(r, fp, fmt.Sprintf("store %s, %s maps, query name %s: oracle (exact owner first, else nearest enclosing wildcard) says %s, the reader returned %s\ndata file:\n%s",
 				storesC[f.store].name, mapKinds[f.kind], qn, want, c.gots[fi][f], text),
 				map[string]interface{}{"level": "C", "store": storesC[f.store].name, "map_kind": mapKinds[f.kind], "qname": qn, "data": text, "want": want, "got": c.gots[fi][f]})
